@@ -292,7 +292,7 @@ func init() {
 			{Name: "unique-dims", Enum: func(tier string) []interface{} {
 				top := 400
 				if tier == "thorough" {
-					top = 3000
+					top = 1500
 				}
 				var res []interface{}
 				for n := 5; n <= top; n += 1 + n/60 {
@@ -310,7 +310,7 @@ func init() {
 			return nil
 		},
 		Cases:   defCases(5000, 120000),
-		Timeout: defDur(10*time.Second, 60*time.Second),
+		Timeout: defDur(15*time.Second, 180*time.Second),
 		Wall:    defDur(50*time.Second, 12*time.Minute),
 	})
 	register(&Prop{
@@ -323,7 +323,7 @@ func init() {
 		},
 		Run: runBfDimacsCase,
 		Cases:   defCases(4000, 100000),
-		Timeout: defDur(10*time.Second, 60*time.Second),
+		Timeout: defDur(15*time.Second, 180*time.Second),
 		Wall:    defDur(50*time.Second, 12*time.Minute),
 	})
 }
